@@ -1,7 +1,14 @@
 from tools.driver import Unit
+BIAS = {"000": "0.0", "025": "0.25", "050": "0.5", "075": "0.75", "100": "1.0"}
+LIM = {1: "hard maximum only", 2: "hard minimum only", 3: "minimum and maximum (incl. CBR)"}
 UNITS = [
-  Unit("bitrate_addblock_noavg", ["C14"], "lib/bitrate.c", enforce="vorbis_bitrate_addblock", harness="h_bitrate_addblock.c", entry="h_bitrate_addblock",
-       replace=["oggpack_bytes", "oggpack_writetrunc", "oggpack_write"], loops="bitrate_addblock.loops",
-       defines=["VERIF_NOAVG"], unwindset=["vorbis_bitrate_addblock.0:17","vorbis_bitrate_addblock.1:17","vorbis_bitrate_addblock.2:17","vorbis_bitrate_addblock.3:17"], reach=5, timeout=600, shards=16,
-       note="hard min/max reservoir invariant and per-block accounting, avg_bitsper==0 (max-only, min-only, min+max, CBR without average tracking)"),
+  Unit("bitrate_addblock_l%d_w%d" % (l, w), ["C14"], "lib/bitrate.c", enforce="vorbis_bitrate_addblock", harness="h_bitrate_addblock.c", entry="h_bitrate_addblock",
+       replace=["oggpack_bytes", "oggpack_writetrunc", "oggpack_write"], loops="bitrate_addblock5.loops",
+       unwindset=["vorbis_bitrate_addblock.0:17","vorbis_bitrate_addblock.1:17","vorbis_bitrate_addblock.2:17","vorbis_bitrate_addblock.3:17", "h_bitrate_addblock.0:16"],
+       defines=["VERIF_NOAVG", "VERIF_LIMITS=%d" % l, "VERIF_W=%d" % w], reach=(4 if l == 3 else 2), timeout=1500, shards=8, resplit=1,
+       assumed=["reservoir_bits >= 8 (below one byte the byte granularity of packets makes the bound unattainable: counterexample reservoir=3 bits, CBR)",
+                "avg_bitsper == 0 (no average-bitrate tracking: max-only, min-only, min+max, CBR); the ABR floater is double arithmetic no back end decides",
+                "exhaustive case split over (active limits, block flag): units l1..l3 x w0,w1"],
+       note="hard min/max reservoir invariant 0 <= R' <= reservoir_bits and per-block accounting; case: %s, W=%d; all sizes, rates, reservoir, bias symbolic" % (LIM[l], w))
+  for l in (1, 2, 3) for w in (0, 1)
 ]
